@@ -19,7 +19,7 @@ ID = "C14"
 LEVEL = "exploration"
 RULE = (
     "input = 1..4 noise pieces (random bytes; structural '/', '!', LF, CR, 7E, 7D dense; ident-like '/AB?5..' lines; bytes >= 0x80 on '/' lines; "
-    "'!' + hex / non-hex / non-ASCII tails; '!' inside the ident line; binary HDLC as seen by the P1 reader; corrupted frames and readouts; lines and readouts beyond the 8 KiB guard, inside and outside a readout) "
+    "'!' + hex / non-hex / non-ASCII tails; '!' inside the ident line; binary HDLC as seen by the P1 reader; corrupted frames and readouts; lines and readouts beyond the 8 KiB guard, inside and outside a readout; homogeneous runs of 950..9000 equal octets after flag / frame-start / '/' prefixes) "
     "x splittings x target {HDLC reader x 4 configs, P1 reader, payload protocol [HDLC,P1], message protocol [HDLC,P1]}, then a clean suffix on the same instance. "
     "evaluations = executions; distinct non-trivial = distinct (target, input) digests on which the P1 reader left hunt mode or returned a readout, "
     "or the HDLC reader opened a frame (observed through is_in_hunt_mode / returned messages)."
@@ -62,6 +62,8 @@ def make_noise(rng) -> tuple[bytes, list[str]]:
                 b = ident + b"\r\n" + b"".join(b"1-0:1.8.0(%08d*kWh)\r\n" % rng.randrange(10**8) for _ in range(rng.randint(380, 450))) + b"!\r\n"
             else:
                 b = long_line + b"\r\n!12\r\n"
+        elif r < 0.09:
+            b, k = hdlc_gen.long_run(rng)
         elif r < 0.6:
             b, k = p1_gen.noise(rng, rng.randint(1, 120))
         elif r < 0.8:
